@@ -49,7 +49,7 @@ func (p *Prog) CGx() *CG {
 				cc := ci.Common()
 				sc := cc.StaticCallee()
 				hasBody := sc != nil && sc.Blocks != nil
-				if sc != nil && hasBody {
+				if sc != nil && hasBody && !isOpaque(sc) {
 					continue
 				}
 				if sc == nil && !cc.IsInvoke() {
@@ -66,6 +66,9 @@ func (p *Prog) CGx() *CG {
 					}
 				}
 				_, isSync := syncCombinators[name]
+				if sc != nil && isOpaque(sc) {
+					isSync = true
+				}
 				for _, a := range cc.Args {
 					for _, tgt := range funcValues(a) {
 						x.extra[fn] = append(x.extra[fn], cgEdge{to: tgt, async: !isSync, pos: ins.Pos(), via: name})
@@ -76,6 +79,20 @@ func (p *Prog) CGx() *CG {
 	}
 	p.cgx = x
 	return x
+}
+
+// isOpaque: first-party higher-order helpers whose bodies are not traversed;
+// a function value handed to them is attributed to the caller (it runs
+// synchronously inside the call). internal/chain runs each runner eagerly
+// inside AddRunner*, on the caller's goroutine.
+func isOpaque(fn *ssa.Function) bool {
+	if fn == nil {
+		return false
+	}
+	for fn.Parent() != nil {
+		fn = fn.Parent()
+	}
+	return fn.Pkg != nil && fn.Pkg.Pkg.Path() == modPath+"/internal/chain"
 }
 
 // funcValues returns the functions a value denotes when it is syntactically a
@@ -122,7 +139,7 @@ type outEdge struct {
 // Out lists successor functions of fn (call, defer, go; plus synthetic edges).
 func (x *CG) Out(fn *ssa.Function) []outEdge {
 	var out []outEdge
-	if n := x.g.Nodes[fn]; n != nil {
+	if n := x.g.Nodes[fn]; n != nil && !isOpaque(fn) {
 		for _, e := range n.Out {
 			async := false
 			if _, ok := e.Site.(*ssa.Go); ok {
